@@ -651,6 +651,46 @@ def cli_equivalence(tier):
                         V(f'cli:extract:{name}:{label}:{policy}', 'extract-points output equals extract_dataframe', 'point labels differ')
                     got.close()
             notes.append(name)
+        # longer inputs: a table of 2,500 stations (most of them inside the model), bounds written with all their digits
+        import contextlib
+        src = os.path.join(work, 'cf1d.nc')
+        rng = numpy.random.default_rng(7)
+        nrows = 2500
+        big = pandas.DataFrame({'lon': 99.0 + rng.random(nrows) * 8.5, 'lat': 9.4 + rng.random(nrows) * 3.2, 'name': [f'station{k:04d}' for k in range(nrows)]})
+        big_csv = os.path.join(work, 'many-stations.csv')
+        big.to_csv(big_csv, index=False)
+        for policy in ('drop', 'fill', 'error'):
+            out_cli = os.path.join(work, f'many-stations-{policy}.nc')
+            err = io.StringIO()
+            with contextlib.redirect_stderr(err):
+                status = run_main(['extract-points', src, big_csv, out_cli, '--missing-points', policy])
+            table = pandas.read_csv(big_csv)
+            try:
+                lib_ds = point_extraction.extract_dataframe(emsarray.open_dataset(src), table, ('lon', 'lat'), point_dimension='point', missing_points=policy)
+            except point_extraction.NonIntersectingPoints as e:
+                msg = err.getvalue()
+                if status in (0, None) or os.path.exists(out_cli) or f'total rows: {len(e.indexes)}' not in msg:
+                    V(f'cli:extract:many-stations:{policy}', 'the message names exactly the rows that miss', f'status {status}; library: {len(e.indexes)} rows miss; message: {msg[-300:]}')
+                continue
+            if status != 0 or not os.path.exists(out_cli):
+                V(f'cli:extract:many-stations:{policy}', 'extract-points succeeds', f'exit status {status}')
+                continue
+            got = xarray.open_dataset(out_cli)
+            if list(got['point'].values) != list(lib_ds['point'].values) or not numpy.allclose(got['temp'].values, lib_ds['temp'].values, equal_nan=True) \
+                    or [str(v) for v in got['name'].values] != [str(v) for v in lib_ds['name'].values]:
+                V(f'cli:extract:many-stations:{policy}', 'extract-points output equals extract_dataframe', f'{nrows} rows: labels / values / names differ')
+            got.close()
+        from emsarray.cli import utils as _cu
+        for text, want in (('99.33333333333333,9.571428571428571,102.85714285714286,11.428571428571429', (99.33333333333333, 9.571428571428571, 102.85714285714286, 11.428571428571429)),
+                           ('-170.12345678901234,-45.98765432109876,-165.00000000000001,-40.000000000000007', (-170.12345678901234, -45.98765432109876, -165.00000000000001, -40.000000000000007)),
+                           ('100.0000000000000000000000000000000000000000000000000000000000,10,101,11.5', (100.0, 10.0, 101.0, 11.5))):
+            try:
+                got = _cu.geometry_argument(text)
+                ok = got.equals(shapely.box(*want))
+            except Exception as e:
+                ok, got = False, f'{type(e).__name__}: {e}'
+            if not ok:
+                V('cli:bounds:long', "a bounds argument 'a,b,c,d' denotes exactly that box, however many digits are written", f'{text!r} -> {got}')
         # a GeoJSON file argument denotes the geometry that is in the file *now*: same path, new content
         from emsarray.cli import utils as cu
         region = os.path.join(work, 'region.geojson')
